@@ -37,7 +37,8 @@ SPEC = dict(
            16: "shortened_field_wrong", 17: "category_above_uint32_dropped", 18: "categories_differ",
            19: "qr_framing_broken_by_semicolon_in_ski_or_id", 20: "qr_text_wrong",
            21: "reported_copy_differs_from_entry"},
-    rule="80% configurations (first the 16 fixed witnesses: runes of 2/3/4 bytes across byte 32, '=' in id/SKI/descriptive "
+    rule="10% shortenString(s, n) alone, any limit n (0..5, around len(s), anywhere), s as the descriptive fields below, 15% "
+         "ill-formed. Of the rest: 80% configurations (first the 16 fixed witnesses: runes of 2/3/4 bytes across byte 32, '=' in id/SKI/descriptive "
          "fields, ';' in id/SKI/optionals, empty fields, categories 2^32 and 2^32-1): SKI (hex-40 / arbitrary), identifier, "
          "brand/model/type/serial of 0..80 bytes clustered at 28..37 built from 1-4-byte runes with '=', ';', ':' sprinkled in, "
          "6% with ill-formed UTF-8 spliced in, category lists of length <= 4 over 0..8 (rarely 2^32-1, 2^32, 2^40, 2^64-1; nil "
@@ -46,7 +47,8 @@ SPEC = dict(
          "-> stored entry (hook copy) and reported copy (polled, capped) -> QRCodeText. 20% arbitrary TXT slices (SHIP records "
          "with 0-3 mutations: missing/duplicate keys, txtvers/register variants, 0/2/3 separators, empty key, own SKI, odd "
          "category items, ill-formed UTF-8) through parseTxt and the callback. distinct = hash of the inputs; non-trivial = some "
-         "descriptive field longer than 32 bytes or some string containing '=', ';' or ':' (configurations), a mutated record (TXT).",
+         "descriptive field longer than 32 bytes or some string containing '=', ';' or ':' (configurations), a mutated record (TXT), "
+         "an input longer than the limit (shortenString).",
     trusted=["fake mDNS provider and report receiver stand in for avahi/zeroconf and the hub",
              "Go library functions fmt, strings, strconv, encoding/json are modelled, not verified"],
     assumptions=["gen/MdnsTable.v (regenerated from mdns/mdns.go, mdns/helper.go) describes the TXT items, limits, mandatory keys, "
